@@ -212,12 +212,25 @@ def pristine_replay(pid, case, timeout=900, shrink_bucket=None, want_case=False)
 # --------------------------------------------------------------------------
 
 
+def limit_memory(gib=4):
+    """address-space limit for worker and replay processes: a runaway allocation in
+    the code under test becomes a MemoryError instead of exhausting the sandbox"""
+    try:
+        import resource
+
+        lim = int(float(os.environ.get("VERIF_MEM_GIB", gib)) * (1 << 30))
+        resource.setrlimit(resource.RLIMIT_AS, (lim, lim))
+    except Exception:
+        pass
+
+
 def _worker(args):
     modname, shard, tier, seed = args
     import importlib
 
     os.environ["VERIF_CHILD"] = "1"
     t0 = time.time()
+    limit_memory()
     try:
         mod = importlib.import_module(modname)
         part = mod.run_shard(shard, tier, seed)
